@@ -2134,7 +2134,15 @@ func (p *produceRequest) tryAddBatch(produceVersion int32, recBuf *recBuf, batch
 			if flexible {
 				batchWireLength += uvarlen(len(recBuf.topic)+1) + lt + 1 + 1 // compact string len (of len+1), topic, compact array len for 1 item, the topic's tagged field section
 			} else {
-				batchWireLength += 2 + lt + 4 // string len, topic, partition array len
+				topicLength := 2 + lt + 4 // string len, topic, partition array len
+				if produceVersion < 0 && topicLength < 16+1+1 {
+					// We do not know the produce version yet and size
+					// pessimistically: a short topic name is smaller
+					// than the topic ID (plus compact array len and
+					// tagged field section) we write for v13+.
+					topicLength = 16 + 1 + 1
+				}
+				batchWireLength += topicLength
 			}
 		}
 	} else if flexible {
